@@ -9,7 +9,15 @@ use crate::common::*;
 use serde::{Deserialize, Serialize};
 use std::sync::Arc;
 use text_utils::data::loading::{BufferedIterator, PipelineIterator};
+use text_utils::data::loading::GenerationStrategy;
+use text_utils::data::postprocessing::PostprocessingFnConfig;
+use text_utils::data::preprocessing::PreprocessingFnConfig;
+use text_utils::data::task::TrainTaskConfig;
+use text_utils::data::verif::{InferenceLoaderDriver, TrainLoaderArgs, TrainLoaderDriver};
+use text_utils::data::{PostprocessingConfig, PreprocessingConfig, TrainPipelineConfig};
 use text_utils::data::Pipeline;
+use text_utils::tokenization::{ByteGroups, ByteTokenizerConfig, GroupAggregation, SpecialConfig, TokenizeConfig, TokenizerConfig};
+use text_utils::windows::WindowConfig;
 use verif_rt::prng::{derive, Rng};
 use verif_rt::rt::{self, Kind};
 use verif_rt::{run_process, ProcSpec, Status};
@@ -19,6 +27,13 @@ pub enum Shape {
     Pipe,
     Buffered(usize),
     PipeBuffered(usize),
+    /// the real InferenceLoader (scan -> enumerate -> pipe -> scan -> flatten -> batched -> buffered)
+    /// through the driver hook: (buffer_size, batch_limit, prefetch_factor, sort)
+    Inference(usize, usize, usize, bool),
+    /// the real TrainLoader over a 300-line file with the Dummy tokenizer (10 us per item, so
+    /// every processed item is visible as one virtual sleep of a worker):
+    /// (buffer_size, batch_limit, prefetch_factor, sort+shuffle)
+    Train(usize, usize, usize, bool),
 }
 
 #[derive(Serialize, Deserialize, Clone, Debug, PartialEq)]
@@ -46,6 +61,7 @@ pub struct C09 {
 }
 
 pub const BOUNDED_N: usize = 400;
+pub const TRAIN_LINES: usize = 300;
 
 /// The complete fault grid, in a fixed order.
 pub fn grid() -> Vec<(Shape, u8, Option<usize>, Fault)> {
@@ -67,7 +83,63 @@ pub fn grid() -> Vec<(Shape, u8, Option<usize>, Fault)> {
             }
         }
     }
+    // ---- the real InferenceLoader: drop after k batches, upstream panic
+    for k in [0usize, 1, 3] {
+        for idle in [0u16, 200] {
+            for n in ups {
+                for w in [0u8, 1, 3] {
+                    for b in [0usize, 2] {
+                        for bl in [1usize, 4] {
+                            for (pf, sort) in [(1usize, false), (3, true)] {
+                                g.push((Shape::Inference(b, bl, pf, sort), w, n, Fault::Drop { k, idle }));
+                            }
+                        }
+                    }
+                }
+            }
+        }
+    }
+    // ---- the real TrainLoader, abandoned mid-epoch (what `iter(train_loader)` does to the previous iterator)
+    for k in [0usize, 1, 5] {
+        for idle in [0u16, 200] {
+            for w in [0u8, 1, 3] {
+                for b in [0usize, 2] {
+                    for (bl, pf, sort) in [(1usize, 1usize, false), (4, 3, true)] {
+                        g.push((Shape::Train(b, bl, pf, sort), w, Some(TRAIN_LINES), Fault::Drop { k, idle }));
+                    }
+                }
+            }
+        }
+    }
+    for j in [0usize, 3, 8] {
+        for w in [1u8, 3] {
+            for n in [Some(40usize), None] {
+                g.push((Shape::Inference(2, 4, 1, false), w, n, Fault::SrcPanic { j, stall: 0 }));
+            }
+        }
+    }
     // ---- panic cells (a worker's processing function / the upstream under the ticket lock)
+    grid_panic_cells(&mut g);
+    // debugging aid: VERIF_C09_ONLY=train|inference|pipe|buffered restricts the grid
+    if let Ok(only) = std::env::var("VERIF_C09_ONLY") {
+        g.retain(|(s, ..)| {
+            let name = match s {
+                Shape::Pipe => "pipe",
+                Shape::Buffered(_) => "buffered",
+                Shape::PipeBuffered(_) => "pipe+buffered",
+                Shape::Inference(..) => "inference",
+                Shape::Train(..) => "train",
+            };
+            name == only
+        });
+    }
+    g
+}
+
+fn grid_panic_cells(g: &mut Vec<(Shape, u8, Option<usize>, Fault)>) {
+    let mut local = vec![];
+    {
+        let g = &mut local;
     for j in 0..=8usize {
         for stall in [0u16, 30] {
             for w in 1..=4u8 {
@@ -84,7 +156,8 @@ pub fn grid() -> Vec<(Shape, u8, Option<usize>, Fault)> {
             g.push((Shape::Pipe, 0, Some(40), Fault::FnPanic { j, stall }));
         }
     }
-    g
+    }
+    g.extend(local);
 }
 
 impl C09 {
@@ -93,6 +166,8 @@ impl C09 {
         let b = match self.shape {
             Shape::Pipe => 0,
             Shape::Buffered(b) | Shape::PipeBuffered(b) => b,
+            // batches of up to `bl` items, a sort buffer of bl*pf items, b buffered batches
+            Shape::Inference(b, bl, pf, _) | Shape::Train(b, bl, pf, _) => (b + 2) * bl * pf.max(1),
         };
         8 * (self.w as i64 + b as i64) + 16
     }
@@ -131,6 +206,7 @@ impl Scenario for C09 {
                 Shape::Pipe => 0,
                 Shape::Buffered(b) => 1 + b as u64,
                 Shape::PipeBuffered(b) => 2 + b as u64,
+                Shape::Inference(b, bl, pf, sort) | Shape::Train(b, bl, pf, sort) => 4 + (b + bl + pf) as u64 + sort as u64,
             }
             + self.delays.iter().filter(|d| **d > 0).count() as u64
             + if self.n.is_none() { 1 } else { 0 }
@@ -204,6 +280,8 @@ impl Scenario for C09 {
             Shape::Pipe => "pipe",
             Shape::Buffered(_) => "buffered",
             Shape::PipeBuffered(_) => "pipe+buffered",
+            Shape::Inference(..) => "inference-loader",
+            Shape::Train(..) => "train-loader",
         };
         let fault = match self.fault {
             Fault::Drop { .. } => "drop",
@@ -220,6 +298,18 @@ impl Scenario for C09 {
             spec = spec.replaying(traces.first().cloned().unwrap_or_default(), *strict);
         }
         let sc = self.clone();
+        let scratch = if let Shape::Train(..) = self.shape {
+            let d = crate::c20::ScratchDir::new("c09", self.run_seed);
+            let mut text = String::new();
+            for i in 0..TRAIN_LINES {
+                text.push_str(&format!("{{\"input\": \"line {i} of the corpus\"}}\n"));
+            }
+            std::fs::write(d.path("train.jsonl"), text).expect("write jsonl");
+            Some(d)
+        } else {
+            None
+        };
+        let train_file = scratch.as_ref().map(|d| d.path("train.jsonl")).unwrap_or_default();
         let r = run_process(&spec, move || {
             let delays = Arc::new(sc.delays.clone());
             let fn_panic_at = match sc.fault {
@@ -252,6 +342,81 @@ impl Scenario for C09 {
                 Shape::Pipe => Box::new(src.pipe(f, sc.w)),
                 Shape::Buffered(b) => Box::new(src.map(move |x| fm(x)).buffered(b)),
                 Shape::PipeBuffered(b) => Box::new(src.pipe(f, sc.w).buffered(b)),
+                Shape::Inference(b, bl, pf, sort) => {
+                    // one window per item (Full), so items delivered = windows delivered
+                    let texts = src.map(|i| Ok(format!("text number {i} {}", "ab ".repeat((i % 5) as usize))));
+                    let drv = InferenceLoaderDriver::new(
+                        texts,
+                        TokenizerConfig {
+                            tokenize: TokenizeConfig::Byte(ByteTokenizerConfig {
+                                use_graphemes: true,
+                                pad_to_multiple_of: None,
+                                groups: ByteGroups::Bytes,
+                                aggregation: GroupAggregation::Mean,
+                            }),
+                            special: SpecialConfig::default(),
+                        },
+                        false,
+                        WindowConfig::Full(true),
+                        sc.w,
+                        b,
+                        bl,
+                        false,
+                        pf,
+                        sort,
+                    )
+                    .expect("inference loader");
+                    Box::new(InferenceBatches { drv, pending: vec![] })
+                }
+                Shape::Train(b, bl, pf, sort) => {
+                    drop(src);
+                    let dummy = TokenizerConfig {
+                        tokenize: TokenizeConfig::Dummy(std::time::Duration::from_micros(10)),
+                        special: SpecialConfig::default(),
+                    };
+                    let mut drv = TrainLoaderDriver::new(TrainLoaderArgs {
+                        files: vec![train_file.clone()],
+                        pipeline: TrainPipelineConfig {
+                            preprocessing: PreprocessingConfig::Global(PreprocessingFnConfig::None),
+                            task: TrainTaskConfig::WhitespaceCorrection(true, dummy),
+                            postprocessing: PostprocessingConfig::Global(PostprocessingFnConfig::None),
+                        },
+                        strategy: GenerationStrategy::Sequential,
+                        num_threads: sc.w,
+                        buffer_size: b,
+                        batch_limit: bl,
+                        batch_limit_is_padded_item_size: false,
+                        max_length: 512,
+                        shuffle: sort,
+                        prefetch_factor: pf,
+                        sort,
+                        seed: Some(7),
+                        skip: 0,
+                        limit: None,
+                        distributed: None,
+                    })
+                    .expect("train loader");
+                    drv.iter().expect("train loader iter");
+                    let mut pending: Vec<u64> = vec![];
+                    let mut n = 0u64;
+                    Box::new(std::iter::from_fn(move || {
+                        if pending.is_empty() {
+                            match drv.next_batch() {
+                                Ok(Some(batch)) => {
+                                    pending = batch
+                                        .iter()
+                                        .map(|_| {
+                                            n += 1;
+                                            n
+                                        })
+                                        .collect();
+                                }
+                                _ => return None,
+                            }
+                        }
+                        pending.pop()
+                    }))
+                }
             };
             match sc.fault {
                 Fault::Drop { k, idle } => {
@@ -308,6 +473,27 @@ impl Scenario for C09 {
     }
 }
 
+/// adapter: the batches of the real InferenceLoader, flattened to item indices
+struct InferenceBatches {
+    drv: InferenceLoaderDriver,
+    pending: Vec<u64>,
+}
+
+impl Iterator for InferenceBatches {
+    type Item = u64;
+    fn next(&mut self) -> Option<u64> {
+        if self.pending.is_empty() {
+            match self.drv.next_batch() {
+                Ok(Some(batch)) => {
+                    self.pending = batch.iter().rev().map(|it| it.item_idx as u64).collect();
+                }
+                _ => return None,
+            }
+        }
+        self.pending.pop()
+    }
+}
+
 pub struct PanickingSrc {
     pub inner: Src,
     pub panic_at: Option<usize>,
@@ -339,8 +525,17 @@ impl C09 {
         let mut dropped_at: Option<i64> = None;
         let mut pulls_after_drop = 0i64;
         let mut fault_fired = false;
+        let train = matches!(self.shape, Shape::Train(..));
         for e in &r.events {
             match e.kind {
+                // TrainLoader: the upstream is a file; one virtual sleep of a background
+                // thread = one item processed by the Dummy tokenizer
+                Kind::Sleep if train && e.task != 0 => {
+                    pulls += 1;
+                    if dropped_at.is_some() {
+                        pulls_after_drop += 1;
+                    }
+                }
                 Kind::Pull => {
                     pulls += 1;
                     if dropped_at.is_some() {
